@@ -61,12 +61,12 @@ func hasFloat(v ssa.Value) (bool, string) {
 // mulBy: v is x.Mul(a, big.NewInt(k)) / Mul(big.NewInt(k), a); returns (a, k).
 func mulBy(v ssa.Value) (ssa.Value, int64, bool) {
 	call, ok := core.Unwrap(v).(*ssa.Call)
-	if !ok || core.CalleeName(&call.Call) != "(*math/big.Int).Mul" || len(call.Call.Args) != 3 {
+	if !ok || core.CalleeName(core.NormCall(&call.Call)) != "(*math/big.Int).Mul" || len(core.NormCall(&call.Call).Args) != 3 {
 		return nil, 0, false
 	}
 	for i := 1; i <= 2; i++ {
-		if k, ok := bigConst(call.Call.Args[i]); ok {
-			return call.Call.Args[3-i], k, true
+		if k, ok := bigConst(core.NormCall(&call.Call).Args[i]); ok {
+			return core.NormCall(&call.Call).Args[3-i], k, true
 		}
 	}
 	return nil, 0, false
@@ -74,10 +74,10 @@ func mulBy(v ssa.Value) (ssa.Value, int64, bool) {
 
 func bigConst(v ssa.Value) (int64, bool) {
 	call, ok := core.Unwrap(v).(*ssa.Call)
-	if !ok || core.CalleeName(&call.Call) != "math/big.NewInt" {
+	if !ok || core.CalleeName(core.NormCall(&call.Call)) != "math/big.NewInt" {
 		return 0, false
 	}
-	return core.ConstInt(call.Call.Args[0])
+	return core.ConstInt(core.NormCall(&call.Call).Args[0])
 }
 
 // exactQuorum decides whether cond (holding with `truth`) is the strict 3v > 2t test. env maps
@@ -98,8 +98,8 @@ func exactQuorum(cond ssa.Value, truth bool, env map[*ssa.Parameter]ssa.Value, d
 		if callee != nil && callee.Blocks != nil && truth {
 			ne := map[*ssa.Parameter]ssa.Value{}
 			for i, p := range callee.Params {
-				if i < len(call.Call.Args) {
-					ne[p] = resolve(call.Call.Args[i])
+				if i < len(core.NormCall(&call.Call).Args) {
+					ne[p] = resolve(core.NormCall(&call.Call).Args[i])
 				}
 			}
 			rets := core.Returns(callee)
@@ -117,7 +117,7 @@ func exactQuorum(cond ssa.Value, truth bool, env map[*ssa.Parameter]ssa.Value, d
 		return core.Undecided, "decision is not a comparison", nil, nil
 	}
 	cmp, ok := core.Unwrap(bin.X).(*ssa.Call)
-	if !ok || core.CalleeName(&cmp.Call) != "(*math/big.Int).Cmp" {
+	if !ok || core.CalleeName(core.NormCall(&cmp.Call)) != "(*math/big.Int).Cmp" {
 		return core.Undecided, "decision is not a big.Int Cmp test", nil, nil
 	}
 	k, ok := core.ConstInt(bin.Y)
@@ -125,7 +125,7 @@ func exactQuorum(cond ssa.Value, truth bool, env map[*ssa.Parameter]ssa.Value, d
 		return core.Undecided, "Cmp result is not compared with a constant", nil, nil
 	}
 	// normalise to "lhs > rhs" strict
-	lhs, rhs := cmp.Call.Args[0], cmp.Call.Args[1]
+	lhs, rhs := core.NormCall(&cmp.Call).Args[0], core.NormCall(&cmp.Call).Args[1]
 	op := bin.Op
 	if !truth {
 		return core.Undecided, "accept branch is the false edge of the comparison", nil, nil
@@ -169,7 +169,7 @@ func checkVotingPowers(c *core.Ctx, rule string) {
 					weigh = x
 				}
 			case *ssa.Call:
-				if core.CalleeName(&x.Call) == "(*math/big.Int).Add" && strings.HasSuffix(core.Path(x.Call.Args[0]), ".totalPower") {
+				if core.CalleeName(core.NormCall(&x.Call)) == "(*math/big.Int).Add" && strings.HasSuffix(core.Path(core.NormCall(&x.Call).Args[0]), ".totalPower") {
 					count = x
 				}
 			}
@@ -181,7 +181,7 @@ func checkVotingPowers(c *core.Ctx, rule string) {
 	}
 	present := func(in ssa.Instruction) (bool, bool) {
 		notDrop, pres := false, false
-		for _, f := range c.FactsAt(in, 0) {
+		for _, f := range c.FactsAt(in, 1) {
 			cf, ok := f.AsCall()
 			if !ok {
 				continue
@@ -325,7 +325,7 @@ func runC20(c *core.Ctx) {
 				continue
 			}
 			cmp, ok := core.Unwrap(bin.X).(*ssa.Call)
-			if !ok || !strings.HasSuffix(core.CalleeName(&cmp.Call), ".Cmp") {
+			if !ok || !strings.HasSuffix(core.CalleeName(core.NormCall(&cmp.Call)), ".Cmp") {
 				continue
 			}
 			// is this the leader update? the true branch stores the proposal's value (a phi of the
@@ -339,7 +339,7 @@ func runC20(c *core.Ctx) {
 			}
 			k, _ := core.ConstInt(bin.Y)
 			strict := (bin.Op == token.EQL && (k == 1 || k == -1)) || (bin.Op == token.LSS && k == 0) || (bin.Op == token.GTR && k == 0)
-			if core.CalleeName(&cmp.Call) == "(*math/big.Int).Cmp" {
+			if core.CalleeName(core.NormCall(&cmp.Call)) == "(*math/big.Int).Cmp" {
 				c.Check(strict, "C20.largest", short+"/leader-update", iff.Pos(), "leader replaced only by strictly larger voted power (big.Int)", "leader comparison is not strict")
 			}
 		}
